@@ -17,6 +17,7 @@ KANI_FILES = {
 # module -> native replay/search file(s) under contracts/native appended to that module's mirror (cfg verif_replay)
 NATIVE_FILES = {
     "network": ["layers.rs"],
+    "optimizer": ["optimizer.rs"],
 }
 
 PLAN = {
